@@ -366,6 +366,47 @@ func cmdCheck(args []string) int {
 		bounded = append(bounded, b)
 	}
 
+	// thorough tier: replay every recorded finding of this property on the real code (an open finding
+	// is expected to reproduce; a fixed one must not come back)
+	var replays []map[string]interface{}
+	if tier == "thorough" {
+		done := map[string]bool{}
+		for i := range known {
+			kf := &known[i]
+			if kf.Property != prop || kf.Replay == "" {
+				continue
+			}
+			fixed := strings.HasPrefix(kf.Status, "fixed")
+			key := kf.Replay + fmt.Sprint(fixed)
+			if done[key] {
+				continue
+			}
+			done[key] = true
+			f := strings.Fields(kf.Replay)
+			code, out := runTemplate(repo, e.modulePath, filepath.Join(verifDir, f[0]), f[1:])
+			r := map[string]interface{}{"template": kf.Replay, "finding_fixed": fixed, "exit": code, "output": firstLines(out, 12)}
+			replays = append(replays, r)
+			switch {
+			case code != 0 && code != 1:
+				r["verdict"] = "replay program did not build or run"
+				fmt.Printf("NOTE: replay %s did not run (exit %d)\n", kf.Replay, code)
+			case fixed && code == 1:
+				r["verdict"] = "a fixed finding reproduces again"
+				violations++
+				p := filepath.Join(outDir, "replay_"+sanitize(f[0])+".log")
+				os.WriteFile(p, []byte(out), 0o644)
+				violLines = append(violLines, fmt.Sprintf("VIOLATION property=%s replay=%s", prop, filepath.Join(verifDir, f[0])))
+			case fixed:
+				r["verdict"] = "fixed finding does not reproduce"
+			case code == 1:
+				r["verdict"] = "open finding reproduces on the real code"
+			default:
+				r["verdict"] = "open finding does not reproduce with this input"
+				fmt.Printf("NOTE: known finding of %s no longer reproduces with %s\n", prop, kf.Replay)
+			}
+		}
+	}
+
 	// evidence
 	trusted := map[string]bool{}
 	unknownCalls := map[string]int{}
@@ -449,6 +490,7 @@ func cmdCheck(args []string) int {
 			"known_findings":            knownHit,
 			"undecided_allowed":         undecidedAllowed,
 			"bounded":                   bounded,
+			"finding_replays":           replays,
 			"lemmas":                    map[string]int{"total": lemmaTotal, "proved": lemmaOK},
 			"integers":                  "Go integers are SMT Int with explicit wrap-around at the type's width (not mathematical); spec integers are mathematical",
 			"explanation":               "every obligation generated from the current source of the listed functions is discharged (negation unsat) by an SMT solver; obligations listed under known_findings/undecided_allowed are excluded from the counts",
@@ -565,4 +607,43 @@ func cmdLemmas(args []string) int {
 		return 1
 	}
 	return 0
+}
+
+// runTemplate builds a replay template (a package main) in a scratch module that replaces the
+// library with the working tree, runs it with args, and returns (exit code, output). The scratch
+// directory is removed afterwards.
+func runTemplate(repo, modulePath, tmpl string, args []string) (int, string) {
+	src, err := os.ReadFile(tmpl)
+	if err != nil {
+		return 2, err.Error()
+	}
+	dir, err := os.MkdirTemp("", "verifreplay")
+	if err != nil {
+		return 2, err.Error()
+	}
+	defer os.RemoveAll(dir)
+	os.WriteFile(filepath.Join(dir, "main.go"), src, 0o644)
+	gomod := "module verifreplay\ngo 1.25.7\nrequire " + modulePath + " v0.0.0\nreplace " + modulePath + " => " + repo + "\n"
+	os.WriteFile(filepath.Join(dir, "go.mod"), []byte(gomod), 0o644)
+	if sum, err := os.ReadFile(filepath.Join(repo, "go.sum")); err == nil {
+		os.WriteFile(filepath.Join(dir, "go.sum"), sum, 0o644)
+	}
+	env := append(os.Environ(), "GOFLAGS=-mod=mod", "GOPROXY=off")
+	build := exec.Command("go", "build", "-o", filepath.Join(dir, "replay.bin"), ".")
+	build.Dir = dir
+	build.Env = env
+	if out, err := build.CombinedOutput(); err != nil {
+		return 2, string(out)
+	}
+	cmd := exec.Command("timeout", append([]string{"60", filepath.Join(dir, "replay.bin")}, args...)...)
+	cmd.Dir = dir
+	cmd.Env = env
+	out, err := cmd.CombinedOutput()
+	if err == nil {
+		return 0, string(out)
+	}
+	if ee, ok := err.(*exec.ExitError); ok {
+		return ee.ExitCode(), string(out)
+	}
+	return 2, string(out) + err.Error()
 }
